@@ -26,6 +26,7 @@ DROPPED = ["visibility qualifiers (pub, pub(crate), pub(super))",
            "attributes #[inline], #[allow(..)], #[derive(..)], #[repr(packed)], #[must_use]",
            "doc comments and line comments",
            "debug_assert!(..) / debug_assert_eq!(..) / debug_assert_ne!(..) and log::*!(..) statements",
+           "display-only statements `<v>.iter().for_each(|e| { crate::display_error(e); });`",
            "where a unit says msg_rule: message-text expressions (`format!(..)`, `\"literal\".into()`) are replaced by an opaque msg() -> String"]
 
 
@@ -85,6 +86,8 @@ def rewrite(txt, keep_pub=False):
     if not keep_pub:
         txt = re.sub(r"\bpub(\((crate|super)\))?\s+", "", txt)
     txt = re.sub(r"(?s)\bdebug_assert(?:_eq|_ne)?!\s*\((?:[^()]|\((?:[^()]|\([^()]*\))*\))*\)\s*;", "", txt)
+    # display-only statement: `<v>.iter().for_each(|e| { crate::display_error(e); });`
+    txt = re.sub(r"(?s)\b\w+\.iter\(\)\.for_each\(\|(\w+)\|\s*\{\s*crate::display_error\(\1\);\s*\}\);", "", txt)
     txt = re.sub(r"(?s)\blog::(trace|debug|info|warn|error)!\s*\((?:[^()]|\((?:[^()]|\([^()]*\))*\))*\)\s*;", "", txt)
     return txt
 
